@@ -219,6 +219,9 @@ def _w_values(job, chk):
                  [(v, "ascii") for v in ("", "é", 0, 5, True, False, ("t", 1), [1, 2], None)]
     else:
         values = [(v, "ascii") for v in byte_values(tier)[:40] + byte_values(tier)[-22:]] + [(v, "ascii") for v in object_values()]
+    if sname == "repr0":
+        # the repr of a large bytes value is several times its size: past the server's item limit, and refused
+        values = [(v, e) for v, e in values if not (isinstance(v, (bytes, str)) and len(v) > 200000)]
     if sname.startswith("compressed"):
         # compresses far below the item limit although it is larger than 1 MiB uncompressed
         values.append((b"A" * (2 * 1024 * 1024 + 17), "ascii"))
